@@ -127,9 +127,11 @@ func NewResourcePool(factory Factory, capacity, maxCap int, idleTimeout time.Dur
 // It waits for all resources to be returned (Put).
 // After a Close, Get is not allowed.
 func (rp *ResourcePool) Close() {
+	verifStep("close:idle")
 	if rp.idleTimer != nil {
 		rp.idleTimer.Stop()
 	}
+	verifStep("close:cap")
 	if rp.capTimer != nil {
 		rp.capTimer.Stop()
 	}
@@ -148,10 +150,12 @@ func (rp *ResourcePool) IsClosed() (closed bool) {
 // closeIdleResources scans the pool for idle resources
 // 定期回收超过IdleTimeout的资源
 func (rp *ResourcePool) closeIdleResources() {
+	verifStep("sweep:load")
 	available := int(rp.Available())
 	idleTimeout := rp.IdleTimeout()
 
 	for i := 0; i < available; i++ {
+		verifStep("sweep:recv")
 		var wrapper resourceWrapper
 		select {
 		case wrapper, _ = <-rp.resources:
@@ -163,10 +167,12 @@ func (rp *ResourcePool) closeIdleResources() {
 		if wrapper.resource != nil && idleTimeout > 0 && time.Until(wrapper.timeUsed.Add(idleTimeout)) < 0 {
 			wrapper.resource.Close()
 			wrapper.resource = nil
+			verifStep("sweep:act")
 			rp.idleClosed.Add(1)
 			rp.active.Add(-1)
 		}
 
+		verifStep("sweep:send")
 		rp.resources <- wrapper
 	}
 }
@@ -190,6 +196,7 @@ func (rp *ResourcePool) get(ctx context.Context) (resource Resource, err error) 
 	}
 
 	// Fetch
+	verifStep("get:recv")
 	var wrapper resourceWrapper
 	var ok bool
 	select {
@@ -202,6 +209,7 @@ func (rp *ResourcePool) get(ctx context.Context) (resource Resource, err error) 
 		if ok {
 			wrapper = newWrapper
 		} else {
+			verifStep("get:wait")
 			startTime := time.Now()
 			select {
 			case wrapper, ok = <-rp.resources:
@@ -220,14 +228,19 @@ func (rp *ResourcePool) get(ctx context.Context) (resource Resource, err error) 
 	}
 
 	if wrapper.resource == nil {
+		verifStep("get:make")
 		wrapper.resource, err = rp.createResourceWithRetry(ctx)
 		if err != nil {
+			verifStep("get:failsend")
 			rp.resources <- resourceWrapper{}
 			return nil, err
 		}
+		verifStep("get:act")
 		rp.active.Add(1)
 	}
+	verifStep("get:avail")
 	rp.available.Add(-1)
+	verifStep("get:inuse")
 	rp.inUse.Add(1)
 	return wrapper.resource, err
 }
@@ -308,19 +321,25 @@ func (rp *ResourcePool) Put(resource Resource) {
 	if resource != nil {
 		wrapper = resourceWrapper{resource, time.Now()}
 	} else {
+		verifStep("put:act")
 		rp.active.Add(-1)
 	}
+	verifStep("put:send")
 	select {
 	case rp.resources <- wrapper:
 	default:
 		panic(errors.New("attempt to Put into a full ResourcePool"))
 	}
+	verifStep("put:inuse")
 	rp.inUse.Add(-1)
+	verifStep("put:avail")
 	rp.available.Add(1)
 }
 
 func (rp *ResourcePool) SetCapacity(capacity int) error {
+	verifStep("setcap:load")
 	oldcap := rp.baseCapacity.Get()
+	verifStep("setcap:cas")
 	rp.baseCapacity.CompareAndSwap(oldcap, int64(capacity))
 	if int(oldcap) < capacity {
 		rp.ScaleCapacity(capacity)
@@ -343,6 +362,7 @@ func (rp *ResourcePool) ScaleCapacity(capacity int) error {
 	// if old capacity is non-zero.
 	var oldcap int
 	for {
+		verifStep("scale:load")
 		oldcap = int(rp.capacity.Get())
 		if oldcap == 0 {
 			return ErrClosed
@@ -350,6 +370,7 @@ func (rp *ResourcePool) ScaleCapacity(capacity int) error {
 		if oldcap == capacity {
 			return nil
 		}
+		verifStep("scale:cas")
 		if rp.capacity.CompareAndSwap(int64(oldcap), int64(capacity)) {
 			break
 		}
@@ -357,20 +378,26 @@ func (rp *ResourcePool) ScaleCapacity(capacity int) error {
 
 	if capacity < oldcap {
 		for i := 0; i < oldcap-capacity; i++ {
+			verifStep("scale:shrink-recv")
 			wrapper := <-rp.resources
 			if wrapper.resource != nil {
 				wrapper.resource.Close()
+				verifStep("scale:shrink-act")
 				rp.active.Add(-1)
 			}
+			verifStep("scale:shrink-avail")
 			rp.available.Add(-1)
 		}
 	} else {
 		for i := 0; i < capacity-oldcap; i++ {
+			verifStep("scale:grow-send")
 			rp.resources <- resourceWrapper{}
+			verifStep("scale:grow-avail")
 			rp.available.Add(1)
 		}
 	}
 	if capacity == 0 {
+		verifStep("scale:close")
 		close(rp.resources)
 	}
 	return nil
@@ -378,42 +405,56 @@ func (rp *ResourcePool) ScaleCapacity(capacity int) error {
 
 // 扩容
 func (rp *ResourcePool) scaleOutResources() (resourceWrapper, bool) {
+	verifStep("so:lock")
 	rp.lock.Lock()
 	defer rp.lock.Unlock()
+	verifStep("so:cap")
 	if rp.capacity.Get() < rp.maxCapacity.Get() {
 		wrapper, ok := rp.AddCapacityResource()
+		verifStep("so:unlock")
 		rp.scaleOutTime = time.Now().Unix()
 		return wrapper, ok
 	}
+	verifStep("so:unlock")
 	return resourceWrapper{}, false
 }
 
 // 扩容并获取连接, 外层加锁了，所以这边不加锁
 func (rp *ResourcePool) AddCapacityResource() (resourceWrapper, bool) {
+	verifStep("so:cap2")
 	capacity := int(rp.capacity.Get())
 	if capacity < 0 || capacity >= int(rp.maxCapacity.Get()) {
 		return resourceWrapper{}, false
 	}
+	verifStep("so:add")
 	rp.capacity.Add(1)
+	verifStep("so:avail")
 	rp.available.Add(1)
 	return resourceWrapper{}, true
 }
 
 // 缩容
 func (rp *ResourcePool) scaleInResources() {
+	verifStep("tick:lock")
 	rp.lock.Lock()
 	defer rp.lock.Unlock()
+	verifStep("tick:cap")
 	if rp.capacity.Get() > rp.baseCapacity.Get() && time.Now().Unix()-rp.scaleOutTime > 60 {
+		verifStep("tick:todo")
 		select {
 		case rp.scaleInTodo <- 0:
 			go func() {
+				verifStep("child:load")
 				rp.ScaleCapacity(int(rp.capacity.Get()) - 1)
+				verifStep("child:done")
 				<-rp.scaleInTodo
 			}()
 		default:
+			verifStep("tick:unlock")
 			return
 		}
 	}
+	verifStep("tick:unlock")
 }
 
 func (rp *ResourcePool) recordWait(start time.Time) {
